@@ -362,7 +362,8 @@ func c17R2(c *Ctx, g *gossipAnchors, fn *ssa.Function, ws []gWrite) {
 	// the function looks up Entries[param]
 	var lookup *ssa.Lookup
 	allInstrs(fn, func(i ssa.Instruction) {
-		if lk, ok := i.(*ssa.Lookup); ok && lk.CommaOk {
+		// (a lookup without the ok result counts too: then nothing can establish "found")
+		if lk, ok := i.(*ssa.Lookup); ok && (lk.CommaOk || lookup == nil) {
 			if base, ok := loadedField(lk.X, g.entriesF); ok && g.isLocalState(base) {
 				if _, isP := strip(lk.Index).(*ssa.Parameter); isP {
 					lookup = lk
@@ -401,6 +402,9 @@ func c17R2(c *Ctx, g *gossipAnchors, fn *ssa.Function, ws []gWrite) {
 		return
 	}
 	var existing, okv ssa.Value
+	if !lookup.CommaOk {
+		existing = lookup
+	}
 	for _, r := range *lookup.Referrers() {
 		if ex, ok := r.(*ssa.Extract); ok {
 			if ex.Index == 0 {
